@@ -331,8 +331,9 @@ mismatch between values and axes""".format(inferred, self.values.shape)
 
     @values.setter
     def values(self, newvalues):
-        self._values = _maybe_cast_type(self._values, newvalues)
-        self._values[...] = newvalues # also valid for a 0-d array
+        values = _maybe_cast_type(self._values, newvalues)
+        values[...] = newvalues # also valid for a 0-d array
+        self._values = values # the cast is kept only if the assignment went through
 
     @property
     def axes(self):
@@ -884,25 +885,25 @@ mismatch between values and axes""".format(inferred, self.values.shape)
         return self.values[indices] # the default for a numpy array
 
     def _setvalues_broadcast(self, indices, newvalues, cast=False):
-        if cast:
-            self._values = _maybe_cast_type(self._values, newvalues)
-        self.values[indices] = newvalues # the default for a numpy array
+        values = _maybe_cast_type(self._values, newvalues) if cast else self._values
+        values[indices] = newvalues # the default for a numpy array
+        self._values = values # the cast is kept only if the assignment went through
 
     def _setvalues_bool(self, mask, newvalues, cast=False):
         mask = np.asarray(mask)
-        if cast:
-            self._values = _maybe_cast_type(self._values, newvalues)
-        self.values[mask] = newvalues # the default for a numpy array
+        values = _maybe_cast_type(self._values, newvalues) if cast else self._values
+        values[mask] = newvalues # the default for a numpy array
+        self._values = values # the cast is kept only if the assignment went through
 
     def _getvalues_ortho(self, indices):
         ix = orthogonal_indexer(indices, self.shape)
         return self.values[ix]
 
     def _setvalues_ortho(self, indices, newvalues, cast=False):
-        if cast:
-            self._values = _maybe_cast_type(self._values, newvalues)
+        values = _maybe_cast_type(self._values, newvalues) if cast else self._values
         ix = orthogonal_indexer(indices, self.shape)
-        self.values[ix] = newvalues
+        values[ix] = newvalues
+        self._values = values # the cast is kept only if the assignment went through
         return 
 
     _getaxes_broadcast = getaxes_broadcast
